@@ -337,7 +337,13 @@ def nat_pathlines(seed, count):
             max_strain = float(rng.choice([0.5, 2.0, 10.0]))
             steps = [None, 10, 50][rng.integers(3)]
             try:
-                ts, sol = P.get_pathline(final, u, L, lo, hi, max_strain, regular_steps=steps)
+                lo_in, hi_in, fin_in = lo.copy(), hi.copy(), final.copy()
+                ts, sol = P.get_pathline(fin_in, u, L, lo_in, hi_in, max_strain, regular_steps=steps)
+                probe_t = [float(ts[0]), float((ts[0] + ts[-1]) / 2), 0.0]
+                probe = [np.array(sol(t_), copy=True) for t_ in probe_t]
+                lo_in += 100.0; hi_in += 100.0; fin_in[:] = 7.0  # the caller reuses its buffers
+                if not all(np.array_equal(sol(t_), p_) for t_, p_ in zip(probe_t, probe)):
+                    msgs.append("the returned pathline changes when the caller later modifies the arrays it passed in (aliasing)")
             except ValueError as e:
                 if "different signs" in str(e):
                     known = True
